@@ -88,6 +88,12 @@ contract(FR, "Rule.possibly_empty", source="AbstractRule.possibly_empty", props=
          trusted_reason="strategy flag getter", params={"self": Obj("Rule")}, returns=Bool,
          ensures=["result == possibly_empty_of(self)"])
 
+for _flag in ("workable", "inferrable", "ignore_parent"):
+    spec_fn(f"{_flag}_of", _ufn(f"{_flag}_of", Bool))
+    contract(FR, f"Rule.{_flag}", source=f"AbstractRule.{_flag}", props=["C04"], verify=False,
+             trusted_reason="strategy flag getter", params={"self": Obj("Rule")}, returns=Bool,
+             ensures=[f"result == {_flag}_of(self)"])
+    REG.classes["Rule"].properties.append(_flag)
 klass(FB, "RuleDBBase", bases=["RuleDBAbstract"],
       fields={"equivdb": Obj("EquivalenceDB"), "_pruned_dict": Opt(RulesDict)},
       properties=["root_label", "iterative", "classdb", "searcher", "pruned_dict"])
